@@ -288,7 +288,8 @@ def run(ck):
             ck.witness(K_ORDER if pairs else "C02:%s:written-xml-invalid" % cs["type"],
                        "the XML written for a conforming tree is rejected by libxml2: %s" % r["lx"]["err"], input=inp,
                        expected="schema-valid", observed=r["lx"]["err"])
-        if cs["doc"] and r.get("file_valid") is not True and r["lx"]["valid"]:
+        has_inc = any(k == "includes" and v and v.get("l") for k, v in cs["tree"]["kw"])   # is_valid_neuroml2 reads included files
+        if cs["doc"] and not has_inc and r.get("file_valid") is not True and r["lx"]["valid"]:
             ck.witness("C02:document:is_valid_neuroml2-%s" % r.get("file_valid"),
                        "is_valid_neuroml2 on the written file of a conforming document gives %s" % r.get("file_valid"), input=inp)
         # correspondences
